@@ -18,7 +18,7 @@ from lib.common import *
 from lib import contractgen as cg
 
 PER_WS = 25
-QUICK_N = 50
+QUICK_N = 40
 MARK = 0xCA11CA1100000000
 
 
@@ -175,7 +175,8 @@ def run(ctx):
             raise ToolError("the mutant dispatcher (no length comparison) was not refuted by TLC: %s" % mut.violated)
         mut_violated = mut.violated
     # 2. conformance pool
-    gen = ctx.tlc("MC_Dispatch", "Gen_Dispatch", workers=1, xss="64m", count=False)
+    gen = ctx.tlc("MC_Dispatch", "Gen_Dispatch_q" if ctx.quick else "Gen_Dispatch", workers=1, xss="64m", count=False)
+    # (the quick pool -- every 15th mask -- is a subset of the thorough pool -- every 3rd)
     pool = sorted(gen.printed("REPLAY"), key=lambda r: r["id"])
     recs = slice_for_seed(pool, ctx.seed, QUICK_N) if ctx.quick else pool
     # 3. build and run
